@@ -259,6 +259,12 @@ func familyStream(weights map[string]int, hostile bool, quickN, thoroughN, lengt
 				if g.chance(0.1) {
 					ops = append(ops, g.observeAll(1)...)
 				}
+				if weights["string"] >= 10 && g.chance(0.06) {
+					ops = append(ops, g.counterBoundary(1)...)
+				}
+				if weights["hash"] >= 10 && g.chance(0.06) {
+					ops = append(ops, g.hcounterBoundary(1)...)
+				}
 			}
 			ops = append(ops, g.observeAll(1)...)
 			return History{Ops: ops}
